@@ -183,6 +183,27 @@ theorem backend_cycle_restores (p : Prog) (k : Nat) (m00 : M) :
     have : m1.ctxs = [] := hb
     rw [h1x] at this; cases this
 
+/-- the heart-beat switch-off of error_handler: afterwards no heart beat is current, and the one that was is recorded as off -/
+theorem hbOffStep_spec (m : M) :
+    (hbOffStep m).hbCur = 0 ∧ (m.hbCur ≠ 0 → (hbOffStep m).hbOff = m.hbCur :: m.hbOff) ∧ (m.hbCur = 0 → hbOffStep m = m) := by
+  unfold hbOffStep
+  by_cases h : m.hbCur = 0
+  · simp [h]
+  · simp [h]
+
+/-- second-level error_handler (the error was raised inside the master's handler), not receivable by a catch, no error
+    trace being generated: the error is delivered with the current heart beat switched off -/
+theorem raiseInner_uncaught_switches_heart_beat_off (msg : String) (m m' : M)
+    (hc : catchable (resetGuards m) = false) (he : m.inError = false) (h : raiseInner msg m = .err m') :
+    m'.hbCur = 0 ∧ (m.hbCur ≠ 0 → m'.hbOff = m.hbCur :: m.hbOff) := by
+  have he' : (resetGuards m).inError = false := he
+  simp only [raiseInner, hc, he', Bool.false_eq_true, ↓reduceIte, longjmp] at h
+  split at h
+  · cases h
+  · cases h
+    have hs := hbOffStep_spec { resetGuards m with inError := false, inMudlibHandler := false }
+    exact ⟨hs.1, hs.2.1⟩
+
 /-- one backend() cycle as the oracle sees it (snapshot before = after clear_state, snapshot after = after the loop) -/
 def observeBackend (p : Prog) (k : Nat) (m00 : M) : TopObs :=
   let t := runBackend p k m00
